@@ -28,7 +28,7 @@ package utils
 //@ ensures [one] stderrN == old(stderrN)+1
 //@ ensures [line] reportLine(stderr[old(stderrN)]) == t.Line
 
-//@ func ConvertBanglaDigitsToASCII [C10,C02]
+//@ func ConvertBanglaDigitsToASCII [C10,C02,C18]
 //@ loop 1:
 //@   invariant [range] 0 <= pos && pos <= len(input)
 //@   invariant [fold] sbText(result) == trFold(input, pos)
